@@ -52,6 +52,7 @@ def plan(tier):
     for i in range(n):
         descs.append({"kind": "mutants", "examples": per})
     descs.append({"kind": "link_states"})
+    descs.append({"kind": "sampler_record_grid"})
     fs_all = fixture_files()
     for i in range(4):
         descs.append({"kind": "fixture_option_sweep", "files": fs_all[i::4]})
@@ -603,6 +604,22 @@ def run_shard(ctx, desc):
                     ctx.mark_nontrivial(case)
             ctx.label("fixture_cval_sweep")
             ctx.sample({"src": "fixture_cval_sweep", "file": rel, "mutants": n})
+        return
+
+    if desc["kind"] == "sampler_record_grid":
+        # Samplers whose instrument record carries each of the few format-version values SunVox has written
+        for fields, spec in build.sampler_record_grid_specs():
+            case = {"src": "synth", "spec": spec, "mutations": []}
+            ctx.case()
+            try:
+                constructed_purity(case)
+                r = stability(bytes_of_case(case), cycles, "synth")
+                ctx.check(r == "ok", "C05.unmutated_loads", "a Sampler with %r does not load" % fields, recipe={"case": case})
+                ctx.mark_nontrivial(case)
+            except PropertyViolation as v:
+                ctx.check(False, v.sub_oracle, "Sampler with %r: %s" % (fields, v.detail), key=v.key, recipe={"case": case})
+        ctx.label("sampler_record_grid")
+        ctx.sample({"src": "sampler_record_grid", "grid": build.SAMPLER_RECORD_GRID})
         return
 
     def body(case):
